@@ -126,4 +126,13 @@ def ordered (l r : Loc) : Bool :=
   | .range lb cb _ _, .range _ _ le ce => lb < le || (lb = le && cb ≤ ce)
   | _, _ => false
 
+/-- order hypothesis for arbitrary (known) locations: `l` begins no later than `r` ends — on lines, and on columns too when both
+    are ranges on that one line -/
+def orderedAny (l r : Loc) : Bool :=
+  match l, r with
+  | .range .., .range .. => ordered l r
+  | _, _ => match l.lnBegin, r.lnEnd with
+    | some a, some b => a ≤ b
+    | _, _ => false
+
 end ErgVerif.C24
